@@ -423,6 +423,14 @@ def r2_4(ctx, R, counter_field):
                 from lib_flow import all_arrivals_cross
 
                 def empt(lab):
+                    if lab[0] == "variant" and lab[2] == "None":
+                        # `let Some(tail) = groups.len().checked_sub(1) else { return Ready(None) }`: None exactly when len == 0
+                        y = strip_refs(lab[1])
+                        if y[0] == "call" and re.search(r"<impl usize>::checked_sub$", y[1] or "") and len(y[2]) == 2:
+                            l_, k_ = strip_refs(y[2][0]), y[2][1]
+                            return l_[0] == "call" and re.search(r"alloc::vec::Vec::<.*>::len$", l_[1] or "") is not None and \
+                                k_[0] == "const" and k_[2] == "1"
+                        return False
                     if lab[0] != "bool":
                         return False
                     x = lab[1]
